@@ -16,7 +16,7 @@ RULE = (
     'which exactly one runs at a time, yielding before every source line of '
     'job_control.py and at every lock / thread operation. Scenario = 1..3 '
     'client threads each issuing 1..4 calls from add_job, insert_job, '
-    'spawn_job (distinct names), stop_job, has_jobs, is_running, get_current, '
+    'spawn_job (distinct names), stop_job, stop_current (idle or not), has_jobs, is_running, get_current, '
     'get_queued; job bodies are scripted (yield, sleep, raise, finish; a '
     'stop request ends them at their next step). Schedule = generated '
     'preemptions {step -> thread} + choices at blocking points; the thorough '
@@ -107,6 +107,9 @@ def run_scenario(scenario, preemptions, choices, step_limit=6000):
                         result = agent is not None
                     elif kind == 'stop':
                         result = control.stop_job('j{}'.format(op[1]))
+                    elif kind == 'stop_current':
+                        # whether or not anything is current
+                        result = control.stop_current()
                     elif kind == 'has_jobs':
                         result = control.has_jobs()
                     elif kind == 'is_running':
@@ -309,7 +312,7 @@ def scenarios(draw):
         for _ in range(draw(st.integers(1, 4))):
             kind = draw(st.sampled_from(
                 ['add', 'add', 'add', 'insert', 'insert', 'spawn', 'observe',
-                 'stop', 'pause']))
+                 'stop', 'stop_current', 'pause']))
             if kind in ('add', 'insert', 'spawn'):
                 jid = next(next_id)
                 body = draw(st.lists(body_step, max_size=3))
@@ -326,6 +329,8 @@ def scenarios(draw):
                     ops.append([which])
             elif kind == 'stop':
                 ops.append(['stop', draw(st.integers(1, 6))])
+            elif kind == 'stop_current':
+                ops.append(['stop_current'])
             else:
                 ops.append(['pause', draw(st.sampled_from([0.25, 0.5]))])
         clients.append(ops)
